@@ -16,6 +16,8 @@ mod c09;
 mod c10;
 mod c08_blocks;
 mod c11;
+mod c12;
+mod fmt;
 mod c16;
 mod corpus;
 
@@ -48,6 +50,7 @@ fn main() {
         | "c09" => c09::run(&opts),
         | "c10" => c10::run(&opts),
         | "c11" => c11::run(&opts),
+        | "c12" => c12::run(&opts),
         | "c16" => c16::run(&opts),
         | other => {
             eprintln!("unknown property {other}");
